@@ -8,7 +8,7 @@ from mitmproxy.addons.proxyserver import Proxyserver
 from mitmproxy.test import taddons, tflow
 from mitmproxy import http
 
-KINDS = ["ok", "ok_resp", "ok_err", "live", "intercepted", "nocontent", "tcp", "ws", "edited", "norequest"]
+KINDS = ["ok", "ok_resp", "ok_err", "live", "intercepted", "nocontent", "tcp", "ws", "edited", "norequest", "ok_same"]
 
 
 def make_flow(kind, k):
@@ -19,12 +19,20 @@ def make_flow(kind, k):
     f.request.host = "srv.test"; f.request.port = 80; f.request.scheme = "http"
     f.request.path = f"/{k}"
     f.request.headers["host"] = "srv.test"
+    if kind == "ok_same":         # a flow recorded against the very server it is replayed to (the usual case)
+        f.server_conn.address = ("srv.test", 80)
     if kind == "intercepted": f.intercept()
     if kind == "nocontent": f.request.raw_content = None
     if kind == "norequest": f.request = None
     if kind == "edited":          # the user edited the flow before: Flow.backup() was taken, then a change made
         f.backup(); f.request.headers["x-edit"] = "1"
     return f
+
+
+def backup_snapshot(f):
+    """the older backup a flow carries (Flow._backup), in the same rendering as snapshot()"""
+    if not f._backup: return None
+    return repr(sorted(((k, v) for k, v in f._backup.items() if k != "backup"), key=lambda kv: kv[0]))
 
 
 def snapshot(f):
@@ -131,6 +139,7 @@ def _run(case):
             tctx.configure(cp, client_replay_concurrency=case.get("conc0", 1))
             flows = [make_flow(kind, k) for k, kind in enumerate(case["flows"])]
             pre = {}      # flow index -> snapshot right before the start_replay call that queued it (earliest pending)
+            stale = {}    # flow index -> snapshot of the older backup it carried at that moment (None: it had none)
             srv = Srv(trace, loop)
             orig = asyncio.open_connection
             asyncio.open_connection = srv.open
@@ -156,6 +165,7 @@ def _run(case):
                     if k == "start":
                         idxs = [i for i in step[1] if i < len(flows)]
                         before = {i: snapshot(flows[i]) for i in idxs}
+                        bbefore = {i: backup_snapshot(flows[i]) for i in idxs}
                         hadbackup = [i for i in idxs if flows[i]._backup]
                         qbefore = list(cp.queue._queue)
                         infl = cp.inflight
@@ -169,7 +179,7 @@ def _run(case):
                         loop.call_soon(cp.start_replay, [flows[i] for i in idxs]); loop.pump()
                         for i in idxs:
                             pending = any(f is flows[i] for f in qbefore) or infl is flows[i]
-                            if i not in pre or not pending: pre[i] = before[i]
+                            if i not in pre or not pending: pre[i] = before[i]; stale[i] = bbefore[i]
                     elif k == "stop":
                         queued = [flows.index(f) for f in cp.queue._queue]
                         # flows with a replay running right now (awaited or background): started and not finished
@@ -177,10 +187,25 @@ def _run(case):
                         fin = {r[3] for r in trace if r[0] == "finish"}
                         infl = sorted(set(([flows.index(cp.inflight)] if cp.inflight is not None else []) +
                                           [fl for n_, fl in enumerate(takes) if n_ not in fin]))
-                        loop.call_soon(cp.stop_replay); loop.pump()
+                        # replays whose server connection is open right now
+                        open_flows = sorted(set(takes[c["ord"]] for c in srv.conns
+                                                if not c["closed"] and 0 <= c["ord"] < len(takes) and c["ord"] not in fin))
+                        awaited = flows.index(cp.inflight) if cp.inflight is not None else -1
+                        raised = []
+                        def do_stop():
+                            try: cp.stop_replay()
+                            except Exception as e: raised.append(f"{type(e).__name__}: {e}")
+                        loop.call_soon(do_stop); loop.pump()
                         after = {i: snapshot(flows[i]) for i in queued}
-                        trace.append(["stop", queued, sorted(set(i for i in queued if after[i] != pre[i])),
-                                      [flows.index(f) for f in cp.queue._queue], infl])
+                        bad = []
+                        for i in sorted(set(queued)):
+                            if after[i] != pre[i]:
+                                bad.append([i, "stale-backup" if stale.get(i) is not None and after[i] == stale[i] else "other"])
+                        open_ords = sorted([c["ord"], takes[c["ord"]]] for c in srv.conns
+                                           if not c["closed"] and 0 <= c["ord"] < len(takes) and c["ord"] not in fin)
+                        trace.append(["stop", {"queued": queued, "bad": bad, "left": [flows.index(f) for f in cp.queue._queue],
+                                               "inflight": infl, "open": open_flows, "open_ords": open_ords,
+                                               "awaited": awaited, "exc": raised[0] if raised else None}])
                     elif k == "edit":
                         if step[1] < len(flows) and getattr(flows[step[1]], "request", None) is not None:
                             f = flows[step[1]]
